@@ -51,6 +51,68 @@ theorem reclaim_noop_while_held {st : St} (h : Reachable st) (s : Sess) (hs : s 
     have : t.ref ≠ 0 := by rw [hI.ref t ht, hsid]; omega
     simp [this]
 
+/-! ### observer entries: token replacement and Reset -/
+
+/-- `coap_add_observer` for a request whose token is new but whose resource and query (cache key) already have an
+observation on this session — "re-registration under a new token": the old subscription is replaced by the new one
+(one freed, one allocated), the set of sessions is unchanged, every session has exactly as many holders as before, and NO
+session's reference count changes — in particular not the observing session's (the release of the deleted entry and the
+reference of the new one cancel). -/
+theorem reregistration_keeps_refcount {st : St} (h : Reachable st) (sid k q tok : Nat) (old : Holder)
+    (hnew : st.findHolder sid (isObsTok k tok) = none)
+    (hold : st.findHolder sid (isObsKey k q) = some old) :
+    (st.addObserver sid k q tok).holders = st.holders.erase old ++ [⟨st.next, sid, .obs k q tok 0⟩] ∧
+    (st.addObserver sid k q tok).sids = st.sids ∧
+    (∀ y, (st.addObserver sid k q tok).holds y = st.holds y) ∧
+    ∀ s ∈ st.sessions, ∀ t ∈ (st.addObserver sid k q tok).sessions, t.sid = s.sid → t.ref = s.ref := by
+  have hI := reachable_inv h
+  obtain ⟨hm, hsid, _⟩ := findHolder_some hold
+  have hl : ∃ s ∈ st.sessions, s.sid = sid := by
+    obtain ⟨s, hs, e⟩ := hI.H.live old hm; exact ⟨s, hs, by rw [e, hsid]⟩
+  have hI' := Inv.closed.addObserver hI sid k q tok hl
+  have heq : st.addObserver sid k q tok = (st.dropHolder old).addHolder sid (.obs k q tok 0) := by
+    unfold St.addObserver; rw [hnew, hold]
+  have hholds : ∀ y, (st.addObserver sid k q tok).holds y = st.holds y := by
+    intro y
+    rw [heq, holds_addHolder_obs, holds_dropHolder st old hm y, hsid]
+  refine ⟨?_, ?_, hholds, ?_⟩
+  · rw [heq, holders_addHolder_obs, holders_dropHolder_mem st old hm]
+    have : (st.dropHolder old).next = st.next := by unfold St.dropHolder; simp [hm]
+    rw [this]
+  · rw [heq, sids_addHolder, sids_dropHolder]
+  · intro s hs t ht e
+    have := ref_of_holds hI hI' (fun _ => 0) (by intro y; rw [hholds y]; rfl) s hs t ht e
+    omega
+
+/-- The RST branch of `coap_dispatch` for a Reset that answers the last notification of an observation (message id not
+in the send queue): `reference … coap_delete_observer … nack handler … release`.  Exactly that one observer entry
+disappears, no session appears or disappears, the observing session's reference count goes down by EXACTLY one and no
+other session's count changes — the temporary reference and its release cancel. -/
+theorem rst_releases_exactly_one {st : St} (h : Reachable st) (sid n : Nat) (x : Holder)
+    (hx : st.findHolder sid (hasNote n) = some x) :
+    (st.rstNote sid n).holders = st.holders.erase x ∧ (st.rstNote sid n).sids = st.sids ∧
+    ∀ s ∈ st.sessions, ∀ t ∈ (st.rstNote sid n).sessions, t.sid = s.sid →
+      s.ref = t.ref + (if s.sid = sid then 1 else 0) := by
+  have hI := reachable_inv h
+  obtain ⟨hm, hsid, _⟩ := findHolder_some hx
+  have hI' := Inv.closed.rstNote hI sid n
+  have heq : st.rstNote sid n = st.dropHolder x := by
+    unfold St.rstNote; rw [hx]; exact rstCancel_eq st sid x hm
+  refine ⟨by rw [heq, holders_dropHolder_mem st x hm], by rw [heq, sids_dropHolder], ?_⟩
+  intro s hs t ht e
+  have := ref_of_holds hI hI' (fun y => if x.sid = y then 1 else 0)
+    (by intro y; rw [heq]; exact holds_dropHolder st x hm y) s hs t ht e
+  rw [this, hsid]
+  by_cases c : s.sid = sid
+  · simp [c]
+  · have : ¬ sid = s.sid := fun e => c e.symm
+    simp [c, this]
+
+/-- a Reset for a notification that is no longer the last one of any observation (or of none at all) changes nothing -/
+theorem rst_stale_changes_nothing (st : St) (sid n : Nat) (hx : st.findHolder sid (hasNote n) = none) :
+    st.rstNote sid n = st := by
+  unfold St.rstNote; rw [hx]
+
 /-! ### peers ↔ sessions -/
 
 theorem pairwise_mem {α : Type} {R : α → α → Prop} {l : List α} (h : l.Pairwise R) {a b : α} (ha : a ∈ l) (hb : b ∈ l) :
@@ -203,7 +265,7 @@ theorem oldest_idle_evicted_at_limit {st : St} (h : Reachable st) (p : Peer) (hl
   constructor
   · simp [St.newSession, freeSess]
   · intro s hs
-    have hs' : s ∈ st.sessions.filter (fun t => t.sid ≠ o.sid) ++ [(⟨st.next, st.nsess, p, 0, st.now, 0, 0⟩ : Sess)] := hs
+    have hs' : s ∈ st.sessions.filter (fun t => t.sid ≠ o.sid) ++ [(⟨st.next, st.nsess, p, 0, st.now, 0, 0, 0⟩ : Sess)] := hs
     rcases List.mem_append.mp hs' with h1 | h1
     · simpa using (List.mem_filter.mp h1).2
     · simp only [List.mem_singleton] at h1; subst h1
@@ -337,7 +399,31 @@ def st0 : St := St.init [(0, 1), (1, 1)] 4
 
 /-- a history with a request, an observation, an application reference and a queued CON reaches a state with a
 session of reference count 3 -/
-example : ((st0.run [.rx pA .plain, .rx pA (.obsReg 0), .appRef pA, .ping pA]).sessions.map (·.ref)) = [3] := by decide
+example : ((st0.run [.rx pA .plain, .rx pA (.obsReg 0 0 0), .appRef pA, .ping pA]).sessions.map (·.ref)) = [3] := by decide
+
+/-- re-registration of /o0 under a new token: still ONE subscription and reference count 1; a different query is a
+second observation (count 2) -/
+example : let st := st0.run [.rx pA (.obsReg 0 0 0), .rx pA (.obsReg 0 0 1)]
+    st.sessions.map (·.ref) = [1] ∧ st.holders.map (·.kind) = [.obs 0 0 1 0] := by decide
+example : ((st0.run [.rx pA (.obsReg 0 0 0), .rx pA (.obsReg 0 1 1)]).sessions.map (·.ref)) = [2] := by decide
+
+/-- the hypotheses of `reregistration_keeps_refcount` and `rst_releases_exactly_one` are satisfiable -/
+example : let st := st0.run [.rx pA (.obsReg 0 0 0)]
+    st.findHolder 8 (isObsTok 0 1) = none ∧ (st.findHolder 8 (isObsKey 0 0)).isSome = true := by decide
+example : let st := st0.run [.rx pA (.obsReg 0 0 0), .rx pA (.obsReg 1 0 0), .changed 0, .io]
+    (st.findHolder 8 (hasNote 1)).isSome = true ∧ st.sessions.map (·.ref) = [2] := by decide
+
+/-- two observations, /o0 changes, the peer resets the notification: ONE reference goes, the session survives the
+session timeout because /o1 still observes; with the second observation cancelled as well it is reclaimed -/
+example : let st := st0.run [.rx pA (.obsReg 0 0 0), .rx pA (.obsReg 1 0 0), .changed 0, .io, .noteRst pA 0,
+      .advance 300001, .io]
+    st.sessions.map (·.ref) = [1] ∧ st.events = [.new 8] := by decide
+example : (st0.run [.rx pA (.obsReg 0 0 0), .rx pA (.obsReg 1 0 0), .changed 0, .io, .noteRst pA 0,
+      .rx pA (.obsDereg 1 0 0), .advance 300001, .io]).events = [.new 8, .del 8] := by decide
+
+/-- a Reset for an older notification cancels nothing -/
+example : ((st0.run [.rx pA (.obsReg 0 0 0), .changed 0, .io, .changed 0, .io, .noteRst pA 1]).sessions.map (·.ref)) = [1] := by
+  decide
 
 /-- teardown while the application still holds its reference: everything is released, DEL is raised (D13) -/
 example : let st := st0.run [.rx pA .plain, .appRef pA, .freeContext]
